@@ -182,7 +182,7 @@ def stage(v, tier, seed):
         if rc != 0 or any(r.get("hang") for r in rows):
             try: cur = json.loads(open(rep + ".cur").read())
             except Exception: cur = None
-        return {"tag": tag, "rc": rc, "rows": rows, "stderr": err[-6000:], "cur": cur}
+        return {"tag": tag, "rc": rc, "rows": rows, "stderr": (out[-1500:] + "\n" + err[-6000:]) if rc != 0 else err[-2000:], "cur": cur}
 
     def replay(rows, tag, is_rerun=False):
         bf = W("beh_%s.ndjson" % tag); rep = W("rep_%s.ndjson" % tag)
@@ -202,7 +202,8 @@ def stage(v, tier, seed):
         rep = W("rep_rand%d.ndjson" % shard); tr = W("trace_rand%d.ndjson" % shard)
         res = harness(["random", str(nh), str(ns), str(seed * 1000 + shard), str(N), rep, tr, modes[0]], "rand%d" % shard, rep)
         if not is_rerun and res["cur"] is not None: res["rerun"] = lambda: random_histories(nh, ns, N, shard, True)[0]
-        val = validate(tr, N, "rand%d" % shard) if (res["rc"] == 0 and os.path.exists(tr) and os.path.getsize(tr) > 0) else None
+        hung = any(r.get("hang") for r in res["rows"])          # (the trace file of a run the watchdog ended is cut short)
+        val = validate(tr, N, "rand%d" % shard) if (res["rc"] == 0 and not hung and os.path.exists(tr) and os.path.getsize(tr) > 0) else None
         return res, val
 
     def first_unexplained(tr, N, lines_ok):
@@ -239,7 +240,7 @@ def stage(v, tier, seed):
             if r.get("summary"): continue
             if r.get("hang"):
                 if not reproduced(res): return None
-                r = dict(r, case=res["cur"])
+                r = dict(r, case=res["cur"], steps=(res["cur"].get("steps", []) if isinstance(res["cur"], dict) else (res["cur"] or [])))
             if r.get("violations"):
                 v.violation("%s %s: %s" % (what, brief(r.get("steps", [])), "; ".join(r["violations"][:3])), r, tag=res["tag"])
             elif r.get("drift"):
